@@ -12,8 +12,17 @@ exceptions as `err:Other` (OverflowError / ValueError of date arithmetic).
   du.special Y M D secs swift                     -> timex TAB value | err:Other
   du.wd next|this|last Y M D secs dow             -> timex TAB value | err:Other
   du.bare Y M D secs dow                          -> timex TAB future TAB past | err:Other
-  du.week|du.month|du.year|du.monthfixed Y M D secs swift  -> timex TAB begin TAB end | err:Other
+  du.week|du.month|du.year|du.monthprefix Y M D secs swift  -> timex TAB begin TAB end | err:Other
+        (du.month = current code, du.monthprefix = the code before d8aa8bf73, du.monthfixed = alias of du.month)
+  du.hms H|M|S num Y M D secs isFuture            -> timex TAB value | err:Other
+  du.weekp Y M D secs swift early mid late        -> timex TAB begin TAB end | err:Other
+  du.weekend|du.weekendfixed Y M D secs swift     -> timex TAB begin TAB end | err:Other
+  du.monthp|du.yearp Y M D secs swift early late  -> timex TAB begin TAB end | err:Other
+  du.ytd Y M D secs                               -> timex TAB begin TAB end
+  du.mtd Y M D secs                               -> timex TAB futureBegin TAB pastBegin TAB end
+  du.restof W|MON|Y Y M D secs                    -> timex TAB begin TAB end | none | err:Other
   du.md Y M D secs m d                            -> timex TAB future TAB past
+  du.nwm Y M D secs m d                           -> timex TAB future TAB past | err:Other  (parse_number_with_month)
   du.mdfixed Y M D secs m d                       -> future;past (repaired generate_dates) -/
 namespace RTV.Drv.CalH
 open RTV.Drv RTV.Py RTV.Cal RTV.DateUtils
@@ -106,8 +115,52 @@ def hPeriod (f : DateTime → Int → Option (Str × DateTime × DateTime)) : Ha
   | [y, m, d, s, sw] => show3 (f (mkDT y m d s) (parseInt sw))
   | _ => "bad-op"
 
+def hHms : Handler
+  | [u, num, y, m, d, s, fut] =>
+    let r := mkDT y m d s
+    match u with
+    | "H" => show2 (getDateTimeResult .H (parseNat num) r (parseBool fut))
+    | "M" => show2 (getDateTimeResult .M (parseNat num) r (parseBool fut))
+    | "S" => show2 (getDateTimeResult .S (parseNat num) r (parseBool fut))
+    | _ => "bad-op"
+  | _ => "bad-op"
+
+def hWeekP : Handler
+  | [y, m, d, s, sw, e, mi, l] => show3 (weekPeriodP (mkDT y m d s) (parseInt sw) (parseBool e) (parseBool mi) (parseBool l))
+  | _ => "bad-op"
+
+def hPeriodEL (f : DateTime → Int → Bool → Bool → Option (Str × DateTime × DateTime)) : Handler
+  | [y, m, d, s, sw, e, l] => show3 (f (mkDT y m d s) (parseInt sw) (parseBool e) (parseBool l))
+  | _ => "bad-op"
+
+def hYtd : Handler
+  | [y, m, d, s] => show3 (some (yearToDate (mkDT y m d s)))
+  | _ => "bad-op"
+
+def hMtd : Handler
+  | [y, m, d, s] =>
+    let (t, f, p, e) := monthToDate (mkDT y m d s)
+    s!"{showStr t}\t{showDT f}\t{showDT p}\t{showDT e}"
+  | _ => "bad-op"
+
+def hRestOf : Handler
+  | [u, y, m, d, s] =>
+    let r := mkDT y m d s
+    let res := match u with
+      | "W" => some (restOf .W r) | "MON" => some (restOf .MON r) | "Y" => some (restOf .Y r) | _ => none
+    match res with
+    | none => "bad-op"
+    | some none => errOther
+    | some (some none) => "none"
+    | some (some (some x)) => show3 (some x)
+  | _ => "bad-op"
+
 def hMd : Handler
   | [y, m, d, s, mm, dd] => show3 (some (monthDayNoYear (mkDT y m d s) (parseNat mm) (parseNat dd)))
+  | _ => "bad-op"
+
+def hNwm : Handler
+  | [y, m, d, s, mm, dd] => show3 (numberWithMonth (mkDT y m d s) (parseNat mm) (parseNat dd))
   | _ => "bad-op"
 
 def hMdFixed : Handler
@@ -136,10 +189,21 @@ def dispatchCal (op : String) (args : List String) : Option String :=
   | "du.bare" => some (hBare args)
   | "du.week" => some (hPeriod weekPeriod args)
   | "du.month" => some (hPeriod monthPeriod args)
-  | "du.monthfixed" => some (hPeriod monthPeriodFixed args)
+  | "du.monthfixed" => some (hPeriod monthPeriod args)
+  | "du.monthprefix" => some (hPeriod monthPeriodPreFix args)
+  | "du.hms" => some (hHms args)
+  | "du.weekp" => some (hWeekP args)
+  | "du.weekend" => some (hPeriod weekendPeriod args)
+  | "du.weekendfixed" => some (hPeriod weekendPeriodFixed args)
+  | "du.monthp" => some (hPeriodEL monthPeriodP args)
+  | "du.yearp" => some (hPeriodEL yearPeriodP args)
+  | "du.ytd" => some (hYtd args)
+  | "du.mtd" => some (hMtd args)
+  | "du.restof" => some (hRestOf args)
   | "du.year" => some (hPeriod yearPeriod args)
   | "du.md" => some (hMd args)
   | "du.mdfixed" => some (hMdFixed args)
+  | "du.nwm" => some (hNwm args)
   | _ => none
 
 end RTV.Drv
